@@ -4,6 +4,11 @@ Implementation under test: torch_frame/nn/models/excelformer.py `feature_mixup`,
 `ExcelFormer.forward(tf, mixup_encoded=True)` (encoder output replaced by an id tensor with a forward hook, the
 mixed tensor captured at the input of the first ExcelFormerConv).
 
+About one case in six is a SEQUENCE of 2-4 calls in one process that share tensor objects: the mi_scores tensor
+(and x / y) of a call is the very object of the previous call refreshed in place with other proportions
+(mi.copy_(new), mi[j] = v), or a fresh tensor; directly, or on one ExcelFormer + one TensorFrame whose tf.mi_scores /
+tf.y are refreshed.  Every call is judged on the arguments passed AT THAT CALL.
+
 The random draws are never replayed from RNG state.  Inputs carry all-distinct feature entries, so every entry of
 the mixed tensor names the input position it came from; the partner row, the mask and lambda are RECOVERED from
 the outputs, the property clauses are checked directly on the tensors (oracle), and the Coq model
@@ -23,7 +28,8 @@ PROP = "C19"
 HEADER = "Require Import Coq.QArith.QArith PF.Lib.ListX PF.Model.Mixup."
 MODEL_TARGETS = ["Model/Mixup.vo"]
 SHARD = 150
-RULE = ("one call of feature_mixup (directly or through ExcelFormer.forward(mixup_encoded=True)) on a batch "
+RULE = ("one call -- or a sequence of 2-4 calls sharing in-place refreshed tensor objects (mi_scores, x, y) -- of "
+        "feature_mixup (directly or through ExcelFormer.forward(mixup_encoded=True)) on a batch "
         "[B<=6, F<=4, D<=4] of all-distinct ids under a fresh torch seed; distinct = distinct (entry point, mode, "
         "target kind, B, F, D, recovered own/partner pattern, number of self/unconstrained rows, raise/no-raise); "
         "non-trivial = mixup on and at least one row took at least one entry from a partner row or mixed its target, "
@@ -47,45 +53,52 @@ TOL = Fr(2, 10 ** 6)
 
 
 # ------------------------------------------------------------------ generator
-def gen_case(rng, tier, entry=None):
+def gen_ids(rng, B, F, D):
+    ids = rng.sample(range(1, 4000), B * F * D)
+    return [[[ids[(i * F + j) * D + k] for k in range(D)] for j in range(F)] for i in range(B)]
+
+
+def gen_y(rng, tk, B, nc=None):
+    """(num_classes, y) for a target kind; num_classes is kept when given"""
+    if tk == "class":
+        if nc is None:
+            nc = rng.randint(max(2, B), B + 2) if rng.chance(0.75) else rng.randint(2, 4)
+        if nc >= B and rng.chance(0.8):
+            return nc, rng.sample(range(nc), B)           # all-distinct targets
+        return nc, [rng.randrange(nc) for _ in range(B)]
+    if tk == "scalar_f":
+        pool = [Fr(k, 4) for k in range(-32, 33)]
+        y = rng.sample(pool, B) if rng.chance(0.8) else [rng.pick(pool) for _ in range(B)]
+        return 1, [[v.numerator, v.denominator] for v in y]
+    return 1, ([rng.randrange(2) for _ in range(B)] if rng.chance(0.5) else rng.sample(range(0, 9), B))
+
+
+def gen_mi(rng, F):
+    while True:
+        mi = [rng.pick([0, 1, 1, 2, 3, 4, 6, 8, 16]) for _ in range(F)]
+        if sum(mi) > 0:
+            break
+    sh = rng.pick([1, 2, 4, 8, 16])
+    return [[m, sh] for m in mi]                    # dyadic, non-negative, positive sum
+
+
+def gen_case(rng, tier, entry=None, clean=False):
     B = rng.wpick([(1, 1), (3, 2), (3, 3), (3, 4), (2, 5), (2, 6)])
     F = rng.randint(1, 4)
     D = rng.randint(1, 4)
     mode = rng.pick([None, "feature", "feature", "feature", "hidden", "hidden", "hidden"])
     entry = entry or ("forward" if rng.chance(0.12) else "direct")
-    ids = rng.sample(range(1, 4000), B * F * D)
-    x = [[[ids[(i * F + j) * D + k] for k in range(D)] for j in range(F)] for i in range(B)]
+    x = gen_ids(rng, B, F, D)
     tk = rng.wpick([(5, "class"), (3, "scalar_f"), (1, "scalar_i")])
     if entry == "forward" and tk == "scalar_i":
         tk = "scalar_f"
-    if tk == "class":
-        if rng.chance(0.75):
-            nc = rng.randint(max(2, B), B + 2)
-            y = rng.sample(range(nc), B)           # all-distinct targets
-        else:
-            nc = rng.randint(2, 4)
-            y = [rng.randrange(nc) for _ in range(B)]
-    elif tk == "scalar_f":
-        nc = 1
-        pool = [Fr(k, 4) for k in range(-32, 33)]
-        y = rng.sample(pool, B) if rng.chance(0.8) else [rng.pick(pool) for _ in range(B)]
-        y = [[v.numerator, v.denominator] for v in y]
-    else:
-        nc = 1
-        y = [rng.randrange(2) for _ in range(B)] if rng.chance(0.5) else rng.sample(range(0, 9), B)
+    nc, y = gen_y(rng, tk, B)
     beta = rng.pick([0.5, 0.5, 1.0, 2.0, 0.25, 4.0, 0.1])
-    mi = None
-    if mode == "feature" or rng.chance(0.3):
-        while True:
-            mi = [rng.pick([0, 1, 1, 2, 3, 4, 6, 8, 16]) for _ in range(F)]
-            if sum(mi) > 0:
-                break
-        sh = rng.pick([1, 2, 4, 8, 16])
-        mi = [[m, sh] for m in mi]                  # dyadic, non-negative, positive sum
+    mi = gen_mi(rng, F) if (mode == "feature" or rng.chance(0.3)) else None
     case = dict(entry=entry, seed=rng.randrange(1 << 30), B=B, F=F, D=D, mode=mode, num_classes=nc,
                 target=tk, y=y, beta=beta, mi=mi, x=x)
     # low-rate malformed stream (direct calls only): a failed assert / one_hot range error
-    if entry == "direct" and rng.chance(0.03):
+    if entry == "direct" and not clean and rng.chance(0.03):
         if mode == "feature" and rng.chance(0.5):
             case["mi"] = None
         elif tk == "class":
@@ -98,9 +111,49 @@ def gen_case(rng, tier, entry=None):
     return case
 
 
+def gen_multi(rng, tier):
+    """Several calls in ONE process that share tensor OBJECTS: the mutual-information tensor (and x / y) of a call is
+    the very object of the previous call, refreshed in place with other values (mi.copy_(new), mi[j] = v), or a
+    fresh tensor.  Every call must use the values passed AT THAT CALL (lambda = MI share of the scores passed now).
+    `via` = direct feature_mixup calls, or one ExcelFormer + one TensorFrame whose tf.mi_scores / tf.y are refreshed."""
+    via = "forward" if rng.chance(0.2) else "direct"
+    base = gen_case(rng, tier, entry=via, clean=True)
+    if rng.chance(0.85):
+        base["mode"] = "feature"
+    if base["mode"] == "feature" and base["mi"] is None:
+        base["mi"] = gen_mi(rng, base["F"])
+    base.update(mi_obj="new", x_obj="new", y_obj="new")
+    calls = [base]
+    n = rng.pick([2, 3, 3, 4])
+    for c in range(1, n):
+        prev = calls[-1]
+        sub = dict(prev, seed=rng.randrange(1 << 30), x=gen_ids(rng, base["B"], base["F"], base["D"]))
+        sub["num_classes"], sub["y"] = gen_y(rng, base["target"], base["B"], base["num_classes"])
+        if via == "direct":
+            sub["beta"] = rng.pick([0.5, 1.0, 2.0, 0.25])
+            if rng.chance(0.15):
+                sub["mode"] = rng.pick(["hidden", None, "feature"])
+        last_fresh = (c == n - 1 and n >= 3)
+        # other PROPORTIONS than at the previous call (not a rescaling of them)
+        for _ in range(20):
+            mi, pm = gen_mi(rng, base["F"]), prev["mi"]
+            if pm is None or base["F"] == 1:
+                break
+            sm, sp = sum(v[0] for v in mi), sum(v[0] for v in pm)
+            if any(a[0] * sp != b_[0] * sm for a, b_ in zip(mi, pm)):     # shares differ, not a mere rescaling
+                break
+        sub["mi"] = mi if (sub["mode"] == "feature" or prev["mi"] is not None or via == "forward") else None
+        reuse_ok = prev["mi"] is not None and sub["mi"] is not None
+        sub["mi_obj"] = "new" if (last_fresh or not reuse_ok or rng.chance(0.15)) else rng.pick(["copy_", "setitem"])
+        sub["x_obj"] = rng.pick(["new", "copy_"])
+        sub["y_obj"] = rng.pick(["new", "copy_"])
+        calls.append(sub)
+    return {"entry": "multi", "via": via, "calls": calls}
+
+
 def generate(rng, tier):
-    n = 1500 if tier == "quick" else 40000
-    return [gen_case(rng, tier) for _ in range(n)]
+    n, m = (1150, 220) if tier == "quick" else (32000, 5000)
+    return [gen_case(rng, tier) for _ in range(n)] + [gen_multi(rng, tier) for _ in range(m)]
 
 
 # ------------------------------------------------------------------ implementation
@@ -135,64 +188,114 @@ def pack_out(xm, ym):
     return obs
 
 
-def run_direct(case):
-    from torch_frame.nn.models.excelformer import feature_mixup
-    x = torch.tensor(case["x"], dtype=torch.float32)
-    y = y_tensor(case)
-    mi = None if case["mi"] is None else torch.tensor([float(fr_of(m)) for m in case["mi"]], dtype=torch.float32)
-    torch.manual_seed(case["seed"])
-    try:
-        xm, ym = feature_mixup(x, y, num_classes=case["num_classes"], beta=case["beta"],
-                               mixup_type=case["mode"], mi_scores=mi)
-    except Exception as ex:
-        return {"ok": False, "exc": C.exc_name(ex)}
-    return pack_out(xm, ym)
+def mi_values(case):
+    return [float(fr_of(m)) for m in case["mi"]]
 
 
-def run_forward(case):
-    """ExcelFormer.forward(tf, mixup_encoded=True): the wiring (num_classes=out_channels, beta, mixup type,
-    tf.mi_scores) is observed with two public torch hooks located by module type."""
-    import torch_frame
-    from torch_frame import stype
-    from torch_frame.data.stats import StatType
-    from torch_frame.nn import ExcelFormer
-    from torch_frame.nn.conv import ExcelFormerConv
-    from torch_frame.nn.encoder.stypewise_encoder import StypeWiseFeatureEncoder
-    B, F, D = case["B"], case["F"], case["D"]
-    names = [f"n{j}" for j in range(F)]
-    stats = {n: {StatType.MEAN: 0.0, StatType.STD: 1.0, StatType.QUANTILES: [0.0, 0.25, 0.5, 0.75, 1.0]} for n in names}
-    g = torch.Generator().manual_seed(case["seed"])
-    tf = torch_frame.TensorFrame(feat_dict={stype.numerical: torch.randn(B, F, generator=g)},
-                                 col_names_dict={stype.numerical: names}, y=y_tensor(case))
-    tf.mi_scores = torch.tensor([float(fr_of(m)) for m in case["mi"]], dtype=torch.float32)
-    torch.manual_seed(case["seed"] + 1)
-    model = ExcelFormer(in_channels=D, out_channels=case["num_classes"], num_cols=F, num_layers=1,
-                        num_heads=case["heads"], col_stats=stats, col_names_dict=tf.col_names_dict,
-                        mixup=case["mode"], beta=case["beta"])
-    enc = [m for m in model.modules() if isinstance(m, StypeWiseFeatureEncoder)]
-    convs = [m for m in model.modules() if isinstance(m, ExcelFormerConv)]
-    if len(enc) != 1 or not convs:
-        return {"ok": False, "exc": "harness:no-hook-point", "hookless": True}
-    ids = torch.tensor(case["x"], dtype=torch.float32)
-    seen = {}
-    h1 = enc[0].register_forward_hook(lambda mod, inp, out: (ids.clone(), out[1]))
-    h2 = convs[0].register_forward_pre_hook(lambda mod, inp: seen.setdefault("x", inp[0].detach().clone()))
-    model.train()
-    torch.manual_seed(case["seed"])
-    try:
-        out, ym = model(tf, mixup_encoded=True)
-    except Exception as ex:
-        return {"ok": False, "exc": C.exc_name(ex)}
-    finally:
-        h1.remove()
-        h2.remove()
-    obs = pack_out(seen["x"], ym)
-    obs["out_shape"] = list(out.shape)
-    return obs
+def refresh(old, new, how):
+    """a tensor holding `new`: the object `old` refreshed in place, or a fresh tensor"""
+    if old is None or how == "new" or old.shape != new.shape or old.dtype != new.dtype:
+        return new
+    if how == "setitem":
+        for j in range(old.shape[0]):
+            old[j] = new[j]
+    else:
+        old.copy_(new)
+    return old
+
+
+class DirectSession:
+    """feature_mixup called directly; tensor objects survive from call to call"""
+    def __init__(self, case):
+        self.x = self.y = self.mi = None
+
+    def call(self, case):
+        from torch_frame.nn.models.excelformer import feature_mixup
+        self.x = refresh(self.x, torch.tensor(case["x"], dtype=torch.float32), case.get("x_obj", "new"))
+        self.y = refresh(self.y, y_tensor(case), case.get("y_obj", "new"))
+        if case["mi"] is None:
+            mi = None
+        else:
+            mi = self.mi = refresh(self.mi, torch.tensor(mi_values(case), dtype=torch.float32),
+                                   case.get("mi_obj", "new"))
+        torch.manual_seed(case["seed"])
+        try:
+            xm, ym = feature_mixup(self.x, self.y, num_classes=case["num_classes"], beta=case["beta"],
+                                   mixup_type=case["mode"], mi_scores=mi)
+        except Exception as ex:
+            return {"ok": False, "exc": C.exc_name(ex)}
+        return pack_out(xm, ym)
+
+    def close(self):
+        pass
+
+
+class ForwardSession:
+    """ExcelFormer.forward(tf, mixup_encoded=True) on ONE model and ONE TensorFrame: the wiring (num_classes =
+    out_channels, beta, mixup type, tf.mi_scores) is observed with two public torch hooks located by module type
+    (encoder output replaced by the id tensor, mixed tensor captured at the input of the first ExcelFormerConv)."""
+    def __init__(self, case):
+        import torch_frame
+        from torch_frame import stype
+        from torch_frame.data.stats import StatType
+        from torch_frame.nn import ExcelFormer
+        from torch_frame.nn.conv import ExcelFormerConv
+        from torch_frame.nn.encoder.stypewise_encoder import StypeWiseFeatureEncoder
+        B, F, D = case["B"], case["F"], case["D"]
+        names = [f"n{j}" for j in range(F)]
+        stats = {n: {StatType.MEAN: 0.0, StatType.STD: 1.0, StatType.QUANTILES: [0.0, 0.25, 0.5, 0.75, 1.0]}
+                 for n in names}
+        g = torch.Generator().manual_seed(case["seed"])
+        self.tf = torch_frame.TensorFrame(feat_dict={stype.numerical: torch.randn(B, F, generator=g)},
+                                          col_names_dict={stype.numerical: names}, y=y_tensor(case))
+        self.mi = None
+        torch.manual_seed(case["seed"] + 1)
+        self.model = ExcelFormer(in_channels=D, out_channels=case["num_classes"], num_cols=F, num_layers=1,
+                                 num_heads=case["heads"], col_stats=stats, col_names_dict=self.tf.col_names_dict,
+                                 mixup=case["mode"], beta=case["beta"])
+        enc = [m for m in self.model.modules() if isinstance(m, StypeWiseFeatureEncoder)]
+        convs = [m for m in self.model.modules() if isinstance(m, ExcelFormerConv)]
+        self.hooks = []
+        self.hookless = len(enc) != 1 or not convs
+        self.state = {}
+        if not self.hookless:
+            self.hooks.append(enc[0].register_forward_hook(
+                lambda mod, inp, out: (self.state["ids"].clone(), out[1])))
+            self.hooks.append(convs[0].register_forward_pre_hook(
+                lambda mod, inp: self.state.__setitem__("x", inp[0].detach().clone())))
+        self.model.train()
+
+    def call(self, case):
+        if self.hookless:
+            return {"ok": False, "exc": "harness:no-hook-point", "hookless": True}
+        self.state["ids"] = torch.tensor(case["x"], dtype=torch.float32)
+        self.state.pop("x", None)
+        self.tf.y = refresh(self.tf.y, y_tensor(case), case.get("y_obj", "new"))
+        self.mi = refresh(self.mi, torch.tensor(mi_values(case), dtype=torch.float32), case.get("mi_obj", "new"))
+        self.tf.mi_scores = self.mi
+        torch.manual_seed(case["seed"])
+        try:
+            out, ym = self.model(self.tf, mixup_encoded=True)
+        except Exception as ex:
+            return {"ok": False, "exc": C.exc_name(ex)}
+        obs = pack_out(self.state["x"], ym)
+        obs["out_shape"] = list(out.shape)
+        return obs
+
+    def close(self):
+        for h in self.hooks:
+            h.remove()
 
 
 def run(case):
-    return run_forward(case) if case["entry"] == "forward" else run_direct(case)
+    subs = case["calls"] if case["entry"] == "multi" else [case]
+    via = case["via"] if case["entry"] == "multi" else case["entry"]
+    sess = (ForwardSession if via == "forward" else DirectSession)(subs[0])
+    try:
+        obss = [sess.call(sub) for sub in subs]
+    finally:
+        sess.close()
+    return {"calls": obss} if case["entry"] == "multi" else obss[0]
 
 
 # ------------------------------------------------------------------ recovery + oracle
@@ -365,7 +468,7 @@ def analyse(case, obs):
                       own=own, tol=tol)
 
 
-def oracle(case, obs):
+def oracle_one(case, obs):
     if "harness_exc" in obs:
         return fail("harness-exc", "harness failed to run the case: " + obs["harness_exc"], tb=obs.get("tb"))
     if obs.get("hookless"):
@@ -384,7 +487,56 @@ def oracle(case, obs):
     return f
 
 
+def oracle(case, obs):
+    if "harness_exc" in obs:
+        return fail("harness-exc", "harness failed to run the case: " + obs["harness_exc"], tb=obs.get("tb"))
+    if case["entry"] != "multi":
+        return oracle_one(case, obs)
+    # every call of the sequence is judged on ITS OWN arguments, whatever objects it shares with earlier calls
+    for i, (sub, o) in enumerate(zip(case["calls"], obs["calls"])):
+        f = oracle_one(sub, o)
+        if f is not None:
+            shared = [n for n in ("mi", "x", "y") if sub.get(n + "_obj", "new") != "new"]
+            f["key"] += ":after-earlier-calls" if i > 0 else ""
+            f["what"] = (f"call {i} of {len(case['calls'])} in one process"
+                         + (f" (tensor objects refreshed in place since the previous call: {shared})" if shared else "")
+                         + ": " + f["what"])
+            f["call_index"] = i
+            return f
+    return None
+
+
 def shrink(case):
+    if case["entry"] != "multi":
+        yield from shrink_one(case)
+        return
+    calls = case["calls"]
+    if len(calls) == 1:
+        yield dict(calls[0], entry=case["via"])
+        return
+    for k in range(len(calls)):
+        rest = calls[:k] + calls[k + 1:]
+        if k == 0:
+            rest = [dict(rest[0], mi_obj="new", x_obj="new", y_obj="new")] + rest[1:]
+        yield dict(case, calls=rest)
+    for k, sub in enumerate(calls):
+        for n in ("x_obj", "y_obj"):
+            if sub.get(n, "new") != "new":
+                yield dict(case, calls=calls[:k] + [dict(sub, **{n: "new"})] + calls[k + 1:])
+    # the calls share their shape: cut the same row / column / channel out of all of them
+    gens = [list(shrink_one(sub)) for sub in calls]
+    c0 = calls[0]
+    cuts = ([("B", i) for i in range(c0["B"])] if c0["B"] > 1 else []) + \
+           ([("F", j) for j in range(c0["F"])] if c0["F"] > 1 else []) + \
+           ([("D", k) for k in range(c0["D"])] if c0["D"] > 1 and case["via"] == "direct" else [])
+    for pos in range(len(cuts)):
+        if all(len(g) == len(gens[0]) and pos < len(g) for g in gens):
+            cand = [g[pos] for g in gens]
+            if len({(c["B"], c["F"], c["D"]) for c in cand}) == 1:
+                yield dict(case, calls=cand)
+
+
+def shrink_one(case):
     B, F, D = case["B"], case["F"], case["D"]
     if B > 1:
         for i in range(B):
@@ -406,7 +558,7 @@ def shrink(case):
             yield dict(case, seed=s)
 
 
-def nontrivial_sig(case, obs):
+def sig_one(case, obs):
     if expects_raise(case):
         return json.dumps(["raise", case["entry"], case["mode"], case["target"], obs.get("ok")])
     if not obs.get("ok"):
@@ -421,13 +573,35 @@ def nontrivial_sig(case, obs):
                        rec["self_rows"]])
 
 
+def nontrivial_sig(case, obs):
+    if case["entry"] != "multi":
+        return sig_one(case, obs)
+    sigs = [sig_one(sub, o) for sub, o in zip(case["calls"], obs.get("calls", []))]
+    if not any(sigs):
+        return None
+    return json.dumps(["multi", case["via"], [sub.get("mi_obj") for sub in case["calls"]], sigs])
+
+
+def flatten(cases, obss):
+    for c, o in zip(cases, obss):
+        if c is None:
+            continue
+        if c["entry"] == "multi":
+            for sub, so in zip(c["calls"], (o or {}).get("calls", [])):
+                yield sub, so
+        else:
+            yield c, o
+
+
 def stats(cases, obss):
     d = {"total": 0, "entry": {}, "mode": {}, "target": {}, "B": {}, "F": {}, "D": {}, "beta": {}, "raise_cases": 0,
          "rows": 0, "rows_mixed": 0, "rows_self_or_unconstrained": 0, "rows_with_partner_entries": 0,
          "distinct_targets": 0}
-    for c, o in zip(cases, obss):
-        if c is None:
-            continue
+    d["multi_call_cases"] = sum(1 for c in cases if c is not None and c["entry"] == "multi")
+    d["calls_with_mi_tensor_refreshed_in_place"] = sum(
+        1 for c in cases if c is not None and c["entry"] == "multi" for sub in c["calls"]
+        if sub.get("mi_obj", "new") != "new" and sub["mode"] == "feature")
+    for c, o in flatten(cases, obss):
         d["total"] += 1
         for k in ("entry", "mode", "target", "B", "F", "D", "beta"):
             d[k][str(c[k])] = d[k].get(str(c[k]), 0) + 1
@@ -462,7 +636,7 @@ def coq_inputs(case):
     return x, y, C.cnat(case["num_classes"]), mt, mi
 
 
-def coq_term(case, obs):
+def coq_term_one(case, obs):
     if "harness_exc" in obs or obs.get("hookless"):
         return None
     x, y, nc, mt, mi = coq_inputs(case)
@@ -497,3 +671,14 @@ def coq_term(case, obs):
     else:
         yo = f"(YMScalar {C.clist([fr_of(v) for v in obs['y']], cq)})"
     return f"mixup_agrees {x} {y} {nc} {mt} {mi} {dr} {cq(rec['tol'])} {xo} {yo}"
+
+
+def coq_term(case, obs):
+    if "harness_exc" in obs:
+        return None
+    if case["entry"] != "multi":
+        return coq_term_one(case, obs)
+    # the model is a function of the arguments of ONE call: a sequence is the conjunction of its calls
+    terms = [coq_term_one(sub, o) for sub, o in zip(case["calls"], obs["calls"])]
+    terms = [t for t in terms if t is not None]
+    return "(" + " && ".join(terms) + ")" if terms else None
